@@ -179,7 +179,7 @@ theorem inv_addMesh (w : W) (name : String) (id : Nat) (m : PMesh) (mat : Option
       · exact inv_congr h0 ⟨rfl, rfl, rfl, rfl⟩
       · exact inv_congr (inv_writeMeshData _ id m h0 hm) ⟨rfl, rfl, rfl, rfl⟩
 
-private theorem vecsOK_inst (inst : List (List Nat)) (h : InstWF inst) (f : List Nat → List Nat) (d : Nat)
+theorem vecsOK_inst (inst : List (List Nat)) (h : InstWF inst) (f : List Nat → List Nat) (d : Nat)
     (hf : ∀ t, t.length = 10 → (f t).length = d ∧ ∀ x ∈ f t, x ∈ t) : VecsOK .f32 d (inst.map f) := by
   intro v hv
   obtain ⟨t, ht, rfl⟩ := List.mem_map.mp hv
